@@ -72,9 +72,10 @@ class Ctx:
             import subprocess
             p = subprocess.run(['timeout', '3000', 'coqchk', '-silent', '-o', '-Q', '.', 'RDM', 'RDM.Properties.' + self.pid],
                                cwd=core.COQ, capture_output=True, text=True)
-            summary = p.stdout[p.stdout.find('CONTEXT SUMMARY'):][:1500] if 'CONTEXT SUMMARY' in p.stdout else (p.stdout + p.stderr)[-800:]
+            out = p.stdout + p.stderr   # coqchk prints its context summary on stderr
+            summary = out[out.find('CONTEXT SUMMARY'):][:1500] if 'CONTEXT SUMMARY' in out else out[-800:]
             self.axioms['coqchk'] = summary
-            if p.returncode != 0 or '* Axioms: <none>' not in p.stdout:
+            if p.returncode != 0 or '* Axioms: <none>' not in out:
                 self.violation('coqchk does not accept Properties/%s.vo without axioms' % self.pid,
                                {'broken': 'coqchk RDM.Properties.%s' % self.pid, 'log': summary}, found_input=False)
         allowed = set(ALLOWED_AXIOMS)
